@@ -211,13 +211,13 @@ def provenance(body, t, exf, depth=0):
     return out
 
 
-def r11_3(ctx, run, rule='R11.3'):
+def r11_3(ctx, run, rule='R11.3', only=None):
     """Cores receive the documents in the order of the public parameters."""
     f = ctx.facts
     ds = dispatchers(ctx)
     n = 0
     for p, params in ds.items():
-        if len(params) < 2:
+        if len(params) < 2 or (only is not None and p not in only):
             continue
         b = f.bodies[p]
         exf = Expr(b)
@@ -246,4 +246,5 @@ def r11_3(ctx, run, rule='R11.3'):
                               'the mixed text/JSONB call computes the function on swapped arguments', loc)
             else:
                 run.proved(rule, p, d, 'documents passed in parameter order', loc)
-    run.floor(rule, 'calls passing two or more documents to a core', n, 15)
+    if only is None:
+        run.floor(rule, 'calls passing two or more documents to a core', n, 15)
